@@ -309,8 +309,10 @@ pub fn gen_lzma2_size_boundary(t: &mut Tape) -> Lzma2Built {
     let mut note = String::new();
     let n = t.range(1, 2);
     for i in 0..n {
-        let h = t.range(1, 3);
-        let target = (h * 65536) as i64 + [0i64, 0, -1, 1][t.below(4) as usize];
+        // mostly 64-192 KiB; 1 in 8 the top of the field (2 MiB class, control 0x?F/0xFF)
+        let top = i == 0 && t.below(8) == 0;
+        let h = if top { [31u64, 32][t.below(2) as usize] } else { t.range(1, 3) };
+        let target = ((h * 65536) as i64 + [0i64, 0, -1, 1][t.below(4) as usize]).min(1 << 21);
         let reset: u8 = if i == 0 { 3 } else { t.below(4) as u8 };
         let newp = if reset >= 2 { Some(gen::draw_props(t, true)) } else { None };
         let ts = w.enc.trace.len();
